@@ -370,6 +370,23 @@ def clean_item(it):
 
 # ------------------------------------------------------------------ parsing the answers
 
+def skip_quoted(s, i):
+    """s[i] is an opening quote of the harness' canonical syntax; returns the index of the closing
+    quote. Escapes: `\\\\`, `\\'`, `\\"` (one character after the backslash) and `\\xHH\\` (up to the
+    closing backslash)."""
+    q = s[i]
+    i += 1
+    n = len(s)
+    while i < n and s[i] != q:
+        if s[i] == "\\":
+            if i + 1 < n and s[i + 1] == "x":
+                i = s.index("\\", i + 2)
+            else:
+                i += 1
+        i += 1
+    return i
+
+
 def split_top(s):
     """split `a,b,c` at top-level commas (outside quotes and brackets)."""
     parts, depth, i, start = [], 0, 0, 0
@@ -377,12 +394,7 @@ def split_top(s):
     while i < n:
         c = s[i]
         if c in "'\"":
-            q = c
-            i += 1
-            while i < n and s[i] != q:
-                if s[i] == "\\":
-                    i += 1
-                i += 1
+            i = skip_quoted(s, i)
         elif c in "([{":
             depth += 1
         elif c in ")]}":
@@ -401,12 +413,7 @@ def strip_quoted(s):
     while i < n:
         c = s[i]
         if c in "'\"":
-            q = c
-            i += 1
-            while i < n and s[i] != q:
-                if s[i] == "\\":
-                    i += 1
-                i += 1
+            i = skip_quoted(s, i)
             out.append("Q")
         else:
             out.append(c)
